@@ -9,13 +9,13 @@ from checks import tsa_common as tc
 PID = 'C29'
 SCHEDULE_DEPENDENT = False
 RULE = ('seeded histories over 2-4 instances of 1-2 classes built with MetaThreadSafeAttributes (1-2 attributes each; in 30% of the runs the classes define value-based __eq__/__hash__ so that distinct instances compare equal): '
-        'instance creation at arbitrary points, instances that die and are replaced by new ones (address reuse), assignments, augmented assignments and reads written as source-line '
+        'instance creation at arbitrary points, instances that die and are replaced by new ones (address reuse), instances made by copy.copy / copy.deepcopy / __dict__.update of a live one (independent from then on), assignments, augmented assignments and reads written as source-line '
         'statements, executed by 1-3 simulated threads taking turns; oracle: a per-instance store model - every read returns '
         'the value last stored on that very instance (0 for a fresh instance), whatever was stored on other instances or '
         'classes. Non-trivial = a read of an instance after a different instance of the same class was assigned; distinct = '
         'distinct (number of instances, classes, history shape) tuples.')
 ASSUMPTIONS = ['no schedule dimension: threads take turns statement by statement (interleavings inside a statement are C27\'s subject)']
-PROBES = ['read_after_foreign_write', 'instance_replaced']
+PROBES = ['read_after_foreign_write', 'instance_replaced', 'instance_copied']
 PLAN = {
   'quick': {'strata': {'instances': 4000}, 'wall_s': 300, 'chunk': 100, 'min_conclusive': 1000},
   'thorough': {'strata': {'instances': 80000}, 'wall_s': 600, 'chunk': 250, 'min_conclusive': 10000},
@@ -35,6 +35,8 @@ def generate(seed, stratum, tier):
     i = rng.choice(live)
     a = rng.choice(attrs)
     k = rng.choice(['assign', 'assign', 'aug', 'read', 'read', 'renew', 'aug_other', 'assign_other'])
+    if rng.random() < 0.08:
+      k = rng.choice(['copy', 'copy', 'dictcopy', 'deepcopy'])
     val += 1
     other = rng.choice(live)
     ops.append({'thread': rng.randrange(3), 'inst': i, 'attr': a, 'kind': k, 'k': val * 3 + 1, 'step': step,
@@ -53,6 +55,9 @@ def text(op):
   t = 'o%d.%s' % (op['inst'], op['attr'])
   if op['kind'] == 'renew':
     return 'pass  # o%d is dropped and a new instance takes its place' % op['inst']
+  if op['kind'] in ('copy', 'dictcopy', 'deepcopy'):
+    return 'pass  # o%d is dropped and replaced by a %s of o%d' % (op['inst'], {'copy': 'copy.copy', 'deepcopy': 'copy.deepcopy',
+                                                                               'dictcopy': 'new object whose __dict__ was updated from that'}[op['kind']], op['other'])
   if op['kind'] == 'aug_other':
     return '%s += o%d.%s' % (t, op['other'], op['other_attr'])
   if op['kind'] == 'assign_other':
@@ -77,6 +82,7 @@ def execute(sc, sched):
   codes = [tc.compile_script([text(op)]) for op in ops]
   foreign = [False]
   renewed = set()
+  copies = set()
 
   def client(k):
     for idx, op in enumerate(ops):
@@ -102,6 +108,26 @@ def execute(sc, sched):
         for a in sc['attrs']:
           model[(i, a)] = 0
         renewed.add(i)
+        turn[0] = idx + 1
+        continue
+      if op['kind'] in ('copy', 'dictcopy', 'deepcopy'):
+        # a second instance made by copying a live one: from then on the two are independent
+        import copy as _copy
+        i, j = op['inst'], op['other']
+        if i != j and j in objs:
+          src = objs[j]
+          if op['kind'] == 'copy':
+            new_obj = _copy.copy(src)
+          elif op['kind'] == 'deepcopy':
+            new_obj = _copy.deepcopy(src)
+          else:
+            new_obj = type(src).__new__(type(src))
+            new_obj.__dict__.update(src.__dict__)
+          objs[i] = new_obj
+          copies.add(i)
+          for a in sc['attrs']:
+            model[(i, a)] = model[(j, a)]
+          sim.probe('instance_copied')
         turn[0] = idx + 1
         continue
       ns = {'x': None, '_m': lambda i: None}
@@ -141,7 +167,7 @@ def execute(sc, sched):
   else:
     for idx, txt, got, want in log:
       if got != want:
-        fresh = not any(o['inst'] == ops[idx]['inst'] and o['attr'] == ops[idx]['attr'] and o['kind'] not in ('read', 'renew') for o in ops[:idx])
+        fresh = not any(o['inst'] == ops[idx]['inst'] and o['attr'] == ops[idx]['attr'] and o['kind'] not in ('read', 'renew', 'copy', 'dictcopy', 'deepcopy') for o in ops[:idx])
         res.violate('foreign-value', {'fresh_instance': fresh},
                     'op#%d `%s` read %r but the value stored on that instance is %r\nhistory: %s' % (idx, txt, got, want, [text(o) for o in ops[:idx + 1]]))
         break
@@ -150,6 +176,8 @@ def execute(sc, sched):
   for idx, op in enumerate(ops):
     if op['kind'] == 'renew':
       sim.probe('instance_replaced')
+      continue
+    if op['kind'] in ('copy', 'dictcopy', 'deepcopy'):
       continue
     if op['kind'] != 'read':
       written.add((op['inst'], sc['instances'][op['inst']]['cls'], op['attr']))
